@@ -250,7 +250,8 @@ func Main(args []string) {
 			"every case starts from a copy of the same initial repository on tmpfs (two identities, a target bug with two comments and a label, a closed bug, fillers giving an ambiguous prefix, two stored image blobs) with a persisted cache; nonces and time stamps come from the deterministic seams",
 			"'repository unchanged' is compared on: all refs and HEAD, the set of objects reachable from the refs, every file of the object store (so a stored but unreferenced blob counts), the persisted clock files, the answers of the live cache (ids, excerpts, loaded snapshots incl. staged operations, queries, identities, labels), the GraphQL read query, and the answers of the cache after a restart",
 			"what is recorded is read from the git objects by a reader written from the documented format, not by git-bug's entity reader",
-			"with a user, only requests whose every argument is a valid catalogue value and that ask for an actual change must succeed; for other arguments the statement is silent and the oracle only requires: error => nothing changed, no error => append-only, authored by the user, one bug, returned bug = changed bug",
+			"what a bug prefix or combined comment-id prefix denotes is decided by an independent resolution over the initial population (string prefix over all bug ids / all combined comment ids): exactly one match => that bug/comment is the target; none or several => the request must be refused and change nothing, with and without a user",
+			"with a user, only requests whose prefix resolves uniquely, whose other arguments are valid catalogue values and that ask for an actual change must succeed; for other arguments the statement is silent and the oracle only requires: error => nothing changed, no error => append-only, authored by the user, one bug, returned bug = changed bug",
 		},
 		WallS: time.Since(start).Seconds(), Violations: rep.Viol, Known: rep.KnownSeen()}
 	if err := ev.Write(); err != nil {
